@@ -3,6 +3,7 @@ SPECIFICATION Spec
 CONSTANTS
   Readers = {1, 2}
   WScripts <- Scripts
+  Mutant = "none"
   ROps = 3
-INVARIANTS SeqsOk SingleContext RemovalEffective NoLostChannel NoUseAfterFree FreedOnce NoEarlyFree
+INVARIANTS SeqsOk SingleContext RemovalEffective NoLostChannel NoResurrection NoUseAfterFree FreedOnce NoEarlyFree
 CHECK_DEADLOCK FALSE
